@@ -154,8 +154,8 @@ pub fn event_json(rng: &mut Rng) -> Value {
 
 /// every kind of path into the struct family (declared names, aliases, skipped, map keys, too deep, through optionals)
 pub fn paths() -> Vec<Vec<String>> {
-    let raw: [&[&str]; 33] = [
-        &["env"], &["env", "HOME"], &["env", " HOME"], &["env", "USER", "name"], &["env", "a.b"], &["env", "nope"],
+    let raw: [&[&str]; 35] = [
+        &["env"], &["env", "HOME"], &["env", " HOME"], &["env", "USER", "name"], &["env", "a.b"], &["env", "a", "b"], &["inner", "m", "k.j"], &["env", "nope"],
         &["opt"], &["opt", "x"], &["onum"], &["num"], &["num", "x"], &["f"], &["flag"], &["inner"], &["inner", "s"], &["inner", "m"],
         &["inner", "m", "k"], &["inner", "m", " k"], &["inner", "m", "k", "j"], &["inner", "alias"], &["inner", "renamed"], &["inner", "hidden"],
         &["inner", "p"], &["oinner"], &["oinner", "s"], &["oinner", "alias"], &["oinner", "hidden"], &["oinner", "p"], &["eid"], &["src"],
